@@ -347,8 +347,6 @@ func (l *Lexer) readBlockString(tok *token.Token) {
 	tok.SetStart(l.input.InputPosition, l.input.TextPosition)
 	tok.TextPosition.CharStart -= 3
 
-	escaped := false
-	quoteCount := 0
 	whitespaceCount := 0
 	reachedFirstNonWhitespace := false
 	leadingWhitespaceToken := 0
@@ -357,8 +355,6 @@ func (l *Lexer) readBlockString(tok *token.Token) {
 		next := l.readRune()
 		switch next {
 		case runes.SPACE, runes.TAB, runes.CARRIAGERETURN, runes.LINETERMINATOR:
-			escaped = false
-			quoteCount = 0
 			whitespaceCount++
 		case runes.EOF:
 			if l.input.InputPosition < l.input.Length {
@@ -367,8 +363,6 @@ func (l *Lexer) readBlockString(tok *token.Token) {
 					reachedFirstNonWhitespace = true
 					leadingWhitespaceToken = whitespaceCount
 				}
-				escaped = false
-				quoteCount = 0
 				whitespaceCount = 0
 				continue
 			}
@@ -377,31 +371,34 @@ func (l *Lexer) readBlockString(tok *token.Token) {
 			tok.Literal.End -= uint32(whitespaceCount)
 			return
 		case runes.QUOTE:
-			if escaped {
-				escaped = !escaped
-				continue
-			}
-
-			quoteCount++
-
-			if quoteCount == 3 {
+			// the first """ ends the block string; fewer quotes are characters like any other
+			if l.peekEquals(false, runes.QUOTE, runes.QUOTE) {
+				l.swallowAmount(2)
 				tok.SetEnd(l.input.InputPosition-3, l.input.TextPosition)
 				tok.Literal.Start += uint32(leadingWhitespaceToken)
 				tok.Literal.End -= uint32(whitespaceCount)
 				return
 			}
-
+			if !reachedFirstNonWhitespace {
+				reachedFirstNonWhitespace = true
+				leadingWhitespaceToken = whitespaceCount
+			}
+			whitespaceCount = 0
 		case runes.BACKSLASH:
-			escaped = !escaped
-			quoteCount = 0
+			// \""" is the only escape sequence of a block string; any other backslash is a character
+			if l.peekEquals(false, runes.QUOTE, runes.QUOTE, runes.QUOTE) {
+				l.swallowAmount(3)
+			}
+			if !reachedFirstNonWhitespace {
+				reachedFirstNonWhitespace = true
+				leadingWhitespaceToken = whitespaceCount
+			}
 			whitespaceCount = 0
 		default:
 			if !reachedFirstNonWhitespace {
 				reachedFirstNonWhitespace = true
 				leadingWhitespaceToken = whitespaceCount
 			}
-			escaped = false
-			quoteCount = 0
 			whitespaceCount = 0
 		}
 	}
